@@ -59,7 +59,7 @@ def parseLine (s : String) : Option Line :=
   | "X" =>
     match rest.trimAscii.toString with
     | "P" | "P0" => some (.rejected .unknownPragma)
-    | "C" => some (.rejected .unknownCommand)
+    | "C" | "C1" => some (.rejected .unknownCommand)
     | "I0" | "I1" | "I2" => some (.rejected .invalidInclude)
     | _ => none
   | _ => none
